@@ -1,0 +1,104 @@
+//go:build verif
+
+package verifhook
+
+import (
+	"errors"
+	"fmt"
+
+	"github.com/verily-src/fhirpath-go/fhirpath/patch"
+	"github.com/verily-src/fhirpath-go/internal/fhir"
+	"google.golang.org/protobuf/proto"
+)
+
+func asResource(m proto.Message) (fhir.Resource, error) {
+	if m == nil {
+		return nil, nil
+	}
+	r, ok := m.(fhir.Resource)
+	if !ok {
+		return nil, fmt.Errorf("verifhook: %T is not a resource", m)
+	}
+	return r, nil
+}
+func asBase(m proto.Message) (fhir.Base, error) {
+	if m == nil {
+		return nil, nil
+	}
+	b, ok := m.(fhir.Base)
+	if !ok {
+		return nil, fmt.Errorf("verifhook: %T is not a FHIR value", m)
+	}
+	return b, nil
+}
+
+// PatchErrCode maps the sentinel errors of the patch package to small numbers.
+func PatchErrCode(err error) int {
+	switch {
+	case err == nil:
+		return 0
+	case errors.Is(err, patch.ErrInvalidInput):
+		return 1
+	case errors.Is(err, patch.ErrInvalidEnum):
+		return 2
+	case errors.Is(err, patch.ErrInvalidField):
+		return 3
+	case errors.Is(err, patch.ErrInvalidUnsignedInt):
+		return 4
+	case errors.Is(err, patch.ErrNotSingleton):
+		return 5
+	case errors.Is(err, patch.ErrNotPatchable):
+		return 6
+	case errors.Is(err, patch.ErrNotImplemented):
+		return 7
+	}
+	return 9
+}
+
+func PatchAdd(res proto.Message, path, name string, value proto.Message) error {
+	r, err := asResource(res)
+	if err != nil {
+		return err
+	}
+	v, err := asBase(value)
+	if err != nil {
+		return err
+	}
+	return patch.Add(r, path, name, v, &patch.Options{})
+}
+func PatchDelete(res proto.Message, path string) error {
+	r, err := asResource(res)
+	if err != nil {
+		return err
+	}
+	return patch.Delete(r, path)
+}
+func PatchInsert(res proto.Message, path string, value proto.Message, index int) error {
+	r, err := asResource(res)
+	if err != nil {
+		return err
+	}
+	v, err := asBase(value)
+	if err != nil {
+		return err
+	}
+	return patch.Insert(r, path, v, index)
+}
+func PatchReplace(res proto.Message, path string, value proto.Message) error {
+	r, err := asResource(res)
+	if err != nil {
+		return err
+	}
+	v, err := asBase(value)
+	if err != nil {
+		return err
+	}
+	return patch.Replace(r, path, v)
+}
+func PatchMove(res proto.Message, path string, src, dst int) error {
+	r, err := asResource(res)
+	if err != nil {
+		return err
+	}
+	return patch.Move(r, path, src, dst)
+}
